@@ -63,7 +63,7 @@ def generate(src):
             if len(extra) > 1 or not (isinstance(a, tuple) and a[0] == 'dt' and len(a) == 3): raise Unsupported("get_task_delay called with " + ast.unparse(e))
             oblige(st, "loop/evaluate: the instant handed to get_task_delay is a UTC-aware read of the clock (a naive local time would be taken for UTC: every schedule shifted by the host's offset)  [C13/C14/C15]",
                    BoolVal(bool(a[2]) and any(a[1].eq(r_) for r_ in g['reads'])))
-            oblige(st, "loop/evaluate: a schedule is evaluated against an instant not earlier than the end of the listing that returned it (the delayed send sleeps from now on, not from that instant: a stale instant sends late)  [C14/C15]",
+            oblige(st, "loop/evaluate: a schedule is evaluated against an instant not earlier than the end of the listing that returned it (the delayed send sleeps from now on, not from that instant: a stale instant sends late, and a cron expression is matched against a minute that is already over)  [C13/C14/C15]",
                    a[1] >= g['listed_at'])
             setG(st, last_eval=If(a[1] > g['last_eval'], a[1], g['last_eval']))
         else: tick(st)    # get_task_delay reads the clock itself: the schedule is evaluated against this instant
